@@ -879,3 +879,69 @@ func indexBaseOf(v ssa.Value) (ssa.Value, bool) {
 	}
 	return ia.X, true
 }
+
+// ---- TOK-14: nobody waits for the write token without interrupting its holder ----
+//
+// Close, Disconnect and toOffline take the write token for good. Where they do
+// so with a receive that may have to wait (not an arm of a select that has a
+// default), the holder may be a request stuck in a write on a connection that
+// accepts nothing any more; only closing that connection gets the token back.
+// So the wait follows a Close of the connection, or the knowledge that there
+// is none (the connSem token is nil: a connect attempt holds the write token
+// and ends by itself once the context is cancelled).
+
+func init() {
+	register("TOK-14", []string{"TOK-14"}, func(c *Ctx, _ map[string]bool) { c.tok14() })
+}
+
+func (c *Ctx) tok14() {
+	n := 0
+	for _, name := range []string{"(*Client).Close", "(*Client).Disconnect", "(*Client).toOffline"} {
+		fn := c.Fn("TOK-14", name)
+		if fn == nil {
+			continue
+		}
+		a := c.acc("TOK-14", fn, "wait-for-write-token⇒connection-closed-first(or-none)")
+		for _, p := range c.Paths("TOK-14", fn) {
+			// the connection this function learnt about from connSem, if any
+			var fromConn ssa.Value
+			for i := range p.Events {
+				e := &p.Events[i]
+				if e.Kind == pathx.KRecv && tokenOf(e.Chan) == tkConn && fromConn == nil {
+					fromConn = pathx.ResultAt(e.Result, 0)
+					if fromConn == nil {
+						fromConn = e.Result
+					}
+				}
+				if e.Kind != pathx.KRecv || tokenOf(e.Chan) != tkWrite || (e.InSelect && e.NonBlocking) || e.Deferred {
+					continue
+				}
+				if e.InSelect {
+					// an arm of a blocking select: the other arm (quit) bounds the wait
+					continue
+				}
+				n++
+				closed := false
+				for j := 0; j < i; j++ {
+					r := &p.Events[j]
+					if isInvoke(r, "net.Conn", "Close") {
+						closed = true
+					}
+				}
+				none := false
+				if fromConn != nil {
+					if rel, _, k := p.Known(fromConn, 0, i); k && rel == pathx.RNil {
+						none = true
+					}
+				}
+				if closed || none {
+					a.pass()
+				} else {
+					a.fail(p, i, "%s waits for the write token without having closed the connection its holder may be stuck on: with a stalled peer the call blocks for as long as the write does", name)
+				}
+			}
+		}
+		a.done(1, "every plain receive of the write token follows a Close of the connection (or there is none)")
+	}
+	c.S.Floor("TOK-14", "plain receives of the write token in the three terminators", n, 3)
+}
